@@ -29,6 +29,8 @@ type Case struct {
 	// occurs Count times (kept out of the history so that cases stay small): term frequencies beyond
 	// 16 bits, documents of several hundred kilobytes
 	Huge *HugeDoc `json:"huge,omitempty"`
+	// Bulk, if set, replaces history and queries by a corpus of more than a thousand documents (bulk_test.go)
+	Bulk *BulkText `json:"bulk,omitempty"`
 }
 
 type HugeDoc struct {
@@ -218,6 +220,10 @@ func genCase(t *rapid.T) Case {
 func execCase(c Case) (res vt.Result) {
 	rec := vt.R()
 	h := c.expand()
+	if c.Bulk != nil {
+		h, c.Queries = c.bulk()
+		rec.Count("cases_with_more_than_a_thousand_matching_documents", 1)
+	}
 	if c.Huge != nil {
 		rec.Count("cases_with_a_huge_document", 1)
 	}
